@@ -328,6 +328,15 @@ func validFor(t *rapid.T, entry string) []byte {
 			n.PartNumber = uint32(rapid.IntRange(0, 3).Draw(t, "pn"))
 			n.MBRType, n.SigType = byte(rapid.IntRange(0, 3).Draw(t, "mt")), byte(rapid.IntRange(0, 3).Draw(t, "st"))
 			n.Path = gen.UnicodeString(12).Draw(t, "p")
+			if rapid.IntRange(0, 2).Draw(t, "rawnode") == 0 {
+				// any node type and subtype the specification knows (and some it does not), with a body of any length;
+				// one time in three the length field lies (too small for the fixed part of the node, or too large)
+				n = devpath.Node{Kind: "raw", Type: rapid.SampledFrom([]byte{1, 2, 3, 4, 5, 0x7f, 0, 6, 0xff}).Draw(t, "ntype"), Sub: byte(rapid.IntRange(0, 32).Draw(t, "nsub")),
+					Body: gen.SizedBytes(48, 0, 2, 8, 16, 20, 38).Draw(t, "nbody")}
+				if rapid.IntRange(0, 2).Draw(t, "lenlies") == 0 {
+					n.LenField = rapid.SampledFrom([]uint16{1, 2, 3, 4, 5, 6, 8, 12, 16, 19, 20, 21, 24, 42, 0x100, 0x7fff, 0xffff}).Draw(t, "nlen")
+				}
+			}
 			o.Nodes = append(o.Nodes, n)
 		}
 		switch entry {
